@@ -29,9 +29,69 @@ func checkC20(p *Prog, c *Check) {
 			loop = l
 		}
 	}
+	outer := fn
+	if loop == nil {
+		// the rows are handed to a helper of the package that ranges over them
+		for _, f := range withClosures(fn) {
+			ffi := p.Info(f)
+			for _, b := range f.Blocks {
+				for _, in := range b.Instrs {
+					hc, isCall := in.(*ssa.Call)
+					if !isCall {
+						continue
+					}
+					g := hc.Common().StaticCallee()
+					if g == nil || !inModule(g) || g.Blocks == nil || fnPkgPath(g) != fnPkgPath(fn) {
+						continue
+					}
+					g = origin(g)
+					gfi := p.Info(g)
+					for _, l := range loopsOf(p, g) {
+						if l.Idx == nil || l.Lo != 0 || loop != nil {
+							continue
+						}
+						for k, prm := range g.Params {
+							if k >= len(hc.Common().Args) || !ParsePat("len($p)").Match(l.Bound, Binds{"p": gfi.T(prm)}) {
+								continue
+							}
+							at := ffi.T(hc.Common().Args[k])
+							if f != fn {
+								at = at.freeToParams()
+							}
+							if ParsePat("GetAndDeleteEonPublicKeys(...)#0").Match(stripConv(at), Binds{}) {
+								loop, fn, fi = l, g, gfi
+								c.Analysed(shortFn(g))
+							}
+						}
+					}
+				}
+			}
+		}
+	}
 	if loop == nil {
 		c.Undecided("%s: no range loop over the rows of GetAndDeleteEonPublicKeys found in %s", rule, shortFn(fn))
 		return
+	}
+	// exactly once: the hand-over of a tick's keys is not a unit that is run again as a whole
+	for _, f := range withClosures(outer) {
+		for _, ci := range callsTo(f, "medley/retry.FunctionCall") {
+			var cl *ssa.Function
+			for _, a := range ci.Common().Args {
+				if mc := asClosure(a); mc != nil {
+					cl, _ = mc.Fn.(*ssa.Function)
+				} else if fv, isF := a.(*ssa.Function); isF {
+					cl = fv
+				}
+			}
+			if cl == nil {
+				continue
+			}
+			for _, g := range p.CG().Reachable([]*ssa.Function{cl}, func(h *ssa.Function) bool { return !inModule(h) }) {
+				if origin(g) == origin(fn) {
+					c.Fail(rule, "retry-around-row-loop@"+shortFn(outer), p.siteOf(ci), shortFn(outer), "retry.FunctionCall around the loop over the deleted rows", "the whole list of a tick's keys is handed over again when one hand-over fails: the keys the mechanism had already accepted are published a second time")
+				}
+			}
+		}
 	}
 	// (a) early exits return definitely non-nil errors
 	nExit := 0
@@ -204,6 +264,7 @@ func checkC20(p *Prog, c *Check) {
 
 	c20Producer(p, c)
 	c20NonNil(p, c)
+	optionsAppliedFirst(p, c, "C20-R5b")
 	// the membership lookup every key passes through before it is published
 	linearSearchRule(p, c, "C20-R4", "keyper/database.GetKeyperIndex", "$p1")
 }
@@ -293,6 +354,9 @@ func litFieldsOfTerm(p *Prog, fi *FnInfo, t *Term, depth int) map[string]*Term {
 func c20Fields(p *Prog, c *Check, fi *FnInfo, loop *Loop, bcall *ssa.Call, argT *Term, bfiAt *FnInfo) {
 	rule := "C20-R2"
 	b := Binds{"i": loop.Idx}
+	// the rows: the collection the loop ranges over (the query result itself, or the parameter of the
+	// helper it was handed to — established where the loop was found)
+	ParsePat("len($rows)").Match(loop.Bound, b)
 	var flds map[string]*Term
 	if bfiAt == fi {
 		// a direct call in the loop function: the argument value itself
@@ -302,10 +366,10 @@ func c20Fields(p *Prog, c *Check, fi *FnInfo, loop *Loop, bcall *ssa.Call, argT 
 		flds = litFieldsOfTerm(p, fi, argT, 0)
 	}
 	want := map[string]string{
-		"PublicKey":         "GetAndDeleteEonPublicKeys(...)#0[$i].EonPublicKey",
-		"ActivationBlock":   "Int64ToUint64Safe(GetAndDeleteEonPublicKeys(...)#0[$i].ActivationBlockNumber)#0",
-		"KeyperConfigIndex": "Int32ToUint64Safe(GetAndDeleteEonPublicKeys(...)#0[$i].KeyperConfigIndex)#0",
-		"Eon":               "Int64ToUint64Safe(GetAndDeleteEonPublicKeys(...)#0[$i].Eon)#0",
+		"PublicKey":         "$rows[$i].EonPublicKey",
+		"ActivationBlock":   "Int64ToUint64Safe($rows[$i].ActivationBlockNumber)#0",
+		"KeyperConfigIndex": "Int32ToUint64Safe($rows[$i].KeyperConfigIndex)#0",
+		"Eon":               "Int64ToUint64Safe($rows[$i].Eon)#0",
 	}
 	for _, f := range []string{"PublicKey", "ActivationBlock", "KeyperConfigIndex", "Eon"} {
 		ok := flds != nil && flds[f] != nil && ParsePat(want[f]).Match(flds[f], copyBinds(b))
